@@ -583,7 +583,15 @@ class RxWorld:
                 if exp[1] != got[1]:
                     # when several operands fail at once, which failure surfaces depends on the evaluation order of the
                     # operands (Python: object, attribute, then arguments); any operand's own failure is acceptable
-                    others = {plain(c)[1] for c in self.children(nodes[j]) if plain(c)[0] == 'exc'}
+                    # (transitively: an operand that fails for the same reason may itself surface either failure)
+                    others, stack, seen_ = set(), [j], set()
+                    while stack:
+                        x_ = stack.pop()
+                        for c in self.children(nodes[x_]):
+                            if c not in seen_ and plain(c)[0] == 'exc':
+                                seen_.add(c)
+                                others.add(plain(c)[1])
+                                stack.append(c)
                     if got[1] in others:
                         out.stats['dontcare.which_of_several_failing_operands_surfaces'] += 1
                         return True
